@@ -102,7 +102,7 @@ fn check_marginalize<const D: usize>(shape: [usize; D], axes: &[usize]) {
 }
 
 #[kani::proof]
-#[kani::unwind(40)]
+#[kani::unwind(10)]
 fn k_marg_2x3() {
     check_marginalize([2, 3], &[0]);
     check_marginalize([2, 3], &[1]);
@@ -110,7 +110,7 @@ fn k_marg_2x3() {
 }
 
 #[kani::proof]
-#[kani::unwind(40)]
+#[kani::unwind(16)]
 fn k_marg_2x3x2_single() {
     check_marginalize([2, 3, 2], &[0]);
     check_marginalize([2, 3, 2], &[1]);
@@ -119,7 +119,7 @@ fn k_marg_2x3x2_single() {
 }
 
 #[kani::proof]
-#[kani::unwind(40)]
+#[kani::unwind(16)]
 fn k_marg_2x3x2_pairs_both_orders() {
     check_marginalize([2, 3, 2], &[0, 1]);
     check_marginalize([2, 3, 2], &[1, 0]);
@@ -131,7 +131,7 @@ fn k_marg_2x3x2_pairs_both_orders() {
 }
 
 #[kani::proof]
-#[kani::unwind(40)]
+#[kani::unwind(16)]
 fn k_marg_3x2x1x2_triples() {
     check_marginalize([3, 2, 1, 2], &[3, 0, 2]);
     check_marginalize([3, 2, 1, 2], &[1, 3, 2]);
@@ -252,7 +252,7 @@ fn all_stats_total(shape: &[usize]) {
 macro_rules! stats_total {
     ($name:ident, $($shape:expr),+) => {
         #[kani::proof]
-        #[kani::unwind(70)]
+        #[kani::unwind(20)]
         #[kani::stub(crate::utils::binomial, binomial_stub)]
         fn $name() {
             $(all_stats_total(&$shape);)+
@@ -336,7 +336,7 @@ fn monomorphic_noninterference(shape: &[usize]) {
 }
 
 #[kani::proof]
-#[kani::unwind(70)]
+#[kani::unwind(20)]
 #[kani::stub(crate::utils::binomial, binomial_stub)]
 fn k_stat_monomorphic_1d() {
     monomorphic_noninterference(&[4]);
@@ -345,7 +345,7 @@ fn k_stat_monomorphic_1d() {
 }
 
 #[kani::proof]
-#[kani::unwind(70)]
+#[kani::unwind(20)]
 #[kani::stub(crate::utils::binomial, binomial_stub)]
 fn k_stat_monomorphic_2d() {
     monomorphic_noninterference(&[3, 3]);
@@ -355,7 +355,7 @@ fn k_stat_monomorphic_2d() {
 
 /// S, sum and pi_xy equal their definitions on integer-valued cells (C06)
 #[kani::proof]
-#[kani::unwind(70)]
+#[kani::unwind(20)]
 fn k_stat_s_sum_pixy_definition() {
     let shape = [3usize, 4usize];
     let scs = iota_scs(&shape);
